@@ -62,6 +62,7 @@ type FuncContract struct {
 	Decr     *Clause
 	FreshResult bool // the (first) slice result is a freshly allocated backing array nobody else holds
 	DependsOnly  []DependsClause
+	Opaque       []string // ghost functions kept uninterpreted (not unfolded) while verifying this function
 	OpaqueResult []string
 	ReplayVia   []string // public entry points through which a counterexample of this (internal) function is searched
 	OwnsLists   bool // assumption: lists found in the maps this function builds are exclusively owned by it
@@ -177,7 +178,7 @@ func ParseContracts(fset *token.FileSet, files []*ast.File) *Contracts {
 					cur = fc
 				case "inv":
 					cs.InvExprs = append(cs.InvExprs, &Clause{Kind: "inv", Expr: expandSugar(rest), Raw: rest, Line: line, File: fname})
-				case "property", "old", "requires", "ensures", "modifies", "trusted", "pure", "inline", "invariant", "decreases", "fresh-result", "owns-lists", "replay-via", "depends-only", "opaque-result":
+				case "property", "old", "requires", "ensures", "modifies", "trusted", "pure", "inline", "invariant", "decreases", "fresh-result", "owns-lists", "replay-via", "depends-only", "opaque-result", "opaque":
 					if cur == nil {
 						errf("clause outside func")
 						continue
@@ -196,6 +197,12 @@ func ParseContracts(fset *token.FileSet, files []*ast.File) *Contracts {
 						cur.FreshResult = true
 					case "owns-lists":
 						cur.OwnsLists = true
+					case "opaque":
+						for _, f := range strings.Split(rest, ",") {
+							if f = strings.TrimSpace(f); f != "" {
+								cur.Opaque = append(cur.Opaque, f)
+							}
+						}
 					case "opaque-result":
 						cur.OpaqueResult = append(cur.OpaqueResult, strings.Fields(rest)...)
 					case "depends-only":
